@@ -6,6 +6,28 @@ open P
 
 def fmax : Float := Float.ofBits 0x7FEFFFFFFFFFFFFF
 
+/-- serialised tree: `n k` followed by k lanes `minx miny maxx maxy child`, child = `l e` or a nested `n …` -/
+partial def tree : P (BvhTree Float) := do
+  let t ← tok
+  if t = "l" then
+    let e ← n; pure (.leaf e)
+  else if t = "n" then
+    let k ← n
+    let rec lanes : Nat → P (BvhForest Float)
+      | 0 => pure .nil
+      | j + 1 => do
+        let mn ← v2; let mx ← v2
+        let c ← tree
+        let r ← lanes j
+        pure (.cons mn mx c r)
+    let cs ← lanes k
+    pure (.node cs)
+  else failure
+
+def insertNat (x : Nat) : List Nat → List Nat
+  | [] => [x]
+  | a :: r => if x ≤ a then x :: a :: r else a :: insertNat x r
+
 def handle (op : String) (args : List String) : Option String :=
   match op with
   | "ray.param" => (do
@@ -21,6 +43,13 @@ def handle (op : String) (args : List String) : Option String :=
         | some (a, b) => "some " ++ Out.v2 a ++ " " ++ Out.v2 b
       pure (Out.join [Out.list (fun (h : Float × Nat) => Out.f h.1) hits, span,
         Out.optF (maxIntersection verts o d), Out.f (farthestAlong (-fmax) verts o d)])).run args
+  | "ray.bvh" => (do
+      let verts ← list v2; let o ← v2; let d ← v2
+      let tr ← tree
+      let hits := polylineIntersections fmax verts o d tr
+      let allEdges := (tr.leaves.foldr insertNat []) == List.range (verts.length - 1)
+      pure (Out.join [Out.b (tr.boxedB verts), Out.b allEdges,
+        Out.list (fun (h : Float × Nat) => Out.f h.1 ++ " " ++ Out.n h.2) hits])).run args
   | "ray.slab" => (do
       let lo ← v2; let hi ← v2; let o ← v2; let d ← v2
       pure (Out.b (castRaySlab fmax lo hi o d))).run args
